@@ -4,7 +4,7 @@ import PsecModel.Py
 
 This is the concrete cipher the driver executes the model with.  It shares no
 code with OpenSSL; it is pinned to known-answer vectors by kernel-evaluated
-theorems in `PsecModel/Cipher/Vectors.lean` and compared with the
+theorems in `PsecModel/Cipher/VectorsDes.lean` and compared with the
 `cryptography` package on every run by the C19 correspondence stream.
 -/
 namespace Psec.DES
